@@ -63,7 +63,7 @@ func parseScn(mode, cache, pb, kinds, pre string) (scn, bool) {
 		return s, false
 	}
 	for _, c := range kinds {
-		if c != 'f' && c != 'd' {
+		if c != 'f' && c != 'd' && c != 's' {
 			return s, false
 		}
 	}
@@ -124,6 +124,9 @@ func (s scn) family() string {
 	return s.mode + s.cache + s.pb + s.kinds + m
 }
 
+// usesFb: the stamp of output i lives in the fallback record (xattrs disabled, or the output is a symlink)
+func (s scn) usesFb(i int) bool { return s.mode == "f" || s.kinds[i] == 's' }
+
 // The command of output i; independent specification of its result: expected().
 func (s scn) cmdFor(i int) string {
 	o := fmt.Sprintf("o%d", i)
@@ -134,6 +137,12 @@ func (s scn) cmdFor(i int) string {
 	if s.kinds[i] == 'd' {
 		return fmt.Sprintf("mkdir %s && (%s; echo a%d) > %s/a && (%s; echo b%d) > %s/b", o, src, i, o, src, i, o)
 	}
+	if s.kinds[i] == 's' { // a symlink whose target depends on the tree
+		if !s.mask[i] {
+			return fmt.Sprintf("ln -s /etc/passwd %s", o)
+		}
+		return fmt.Sprintf("if grep -q T0 $SRCS; then ln -s /etc/passwd %s; else ln -s /etc/group %s; fi", o, o)
+	}
 	return fmt.Sprintf("(%s; echo %s) > %s", src, o, o)
 }
 
@@ -142,6 +151,12 @@ func (s scn) expected(tree string, i int) string {
 	src := tree + "\n"
 	if !s.mask[i] {
 		src = "const\n"
+	}
+	if s.kinds[i] == 's' {
+		if tree == "T0" || !s.mask[i] {
+			return "l:/etc/passwd"
+		}
+		return "l:/etc/group"
 	}
 	if s.kinds[i] == 'd' {
 		return fmt.Sprintf("d:a=%s,b=%s", hex.EncodeToString([]byte(fmt.Sprintf("%sa%d\n", src, i))), hex.EncodeToString([]byte(fmt.Sprintf("%sb%d\n", src, i))))
@@ -350,6 +365,10 @@ func renderTree(p string) string {
 	if err != nil {
 		return "missing"
 	}
+	if st.Mode()&os.ModeSymlink != 0 {
+		t, _ := os.Readlink(p)
+		return "l:" + t
+	}
 	if !st.IsDir() {
 		b, _ := os.ReadFile(p)
 		return "f:" + hex.EncodeToString(b)
@@ -365,7 +384,8 @@ func renderTree(p string) string {
 
 func readStamp(s scn, in inst, name string) []byte {
 	p := filepath.Join(in.gen(), name)
-	if s.mode == "f" {
+	i, _ := strconv.Atoi(strings.TrimPrefix(name, "o"))
+	if s.usesFb(i) {
 		b, err := os.ReadFile(filepath.Join(in.gen(), ".rule_hash_"+name))
 		if err != nil {
 			return nil
@@ -541,7 +561,7 @@ type caseRes struct {
 }
 type oracleFail struct{ class, detail string }
 
-func (s scn) classifyStamp(f *famInfo, b []byte) string {
+func (s scn) classifyStamp(f *famInfo, b []byte, fb bool) string {
 	switch {
 	case b == nil:
 		return "none"
@@ -549,7 +569,7 @@ func (s scn) classifyStamp(f *famInfo, b []byte) string {
 		return "s0"
 	case bytes.Equal(b, f.s1):
 		return "s1"
-	case s.mode == "f" && len(b) < 100:
+	case fb && len(b) < 100:
 		return "trunc"
 	}
 	return "other"
@@ -581,7 +601,7 @@ func (s scn) showState(f *famInfo, in inst) (string, []string, []string) {
 		case tr == s.expected("T1", i):
 			c = "c1"
 		}
-		st := s.classifyStamp(f, readStamp(s, in, name))
+		st := s.classifyStamp(f, readStamp(s, in, name), s.usesFb(i))
 		cs, ss = append(cs, c), append(ss, st)
 		parts = append(parts, fmt.Sprintf("%s=%s/%s", name, c, st))
 	}
@@ -605,9 +625,16 @@ func (s scn) emulate(f *famInfo, in inst, point string, j int) bool {
 		if j != 1 || i >= len(s.kinds) || s.kinds[i] != 'd' {
 			return false
 		}
-		return os.Remove(filepath.Join(in.gen(), "o"+idx, "a")) == nil // os.RemoveAll: first unlink
+		ents, err := os.ReadDir(filepath.Join(in.gen(), "o"+idx)) // os.RemoveAll: the first unlink
+		if err != nil {
+			return false
+		}
+		if len(ents) == 0 {
+			return true
+		}
+		return os.Remove(filepath.Join(in.gen(), "o"+idx, ents[0].Name())) == nil
 	case "stamp-out":
-		if s.mode != "f" || j < 1 || j > 2 {
+		if i, _ := strconv.Atoi(idx); i >= len(s.kinds) || !s.usesFb(i) || j < 1 || j > 2 {
 			return false
 		}
 		p := filepath.Join(in.gen(), ".rule_hash_o"+idx)
@@ -657,13 +684,13 @@ func runCrash(op string, s scn, k, j int, next string) caseRes {
 	f.init(s)
 	if f.err != "" {
 		res.out = "setup-error"
-		res.fails = append(res.fails, oracleFail{"harness-setup", f.err})
+		res.fails = append(res.fails, oracleFail{setupClass(f.err), f.err})
 		return res
 	}
 	tr, err := s.trace(f)
 	if err != "" {
 		res.out = "setup-error"
-		res.fails = append(res.fails, oracleFail{"harness-setup", err})
+		res.fails = append(res.fails, oracleFail{setupClass(err), err})
 		return res
 	}
 	if k > len(tr) || (j > 0 && k >= len(tr)) {
@@ -673,7 +700,7 @@ func runCrash(op string, s scn, k, j int, next string) caseRes {
 	in, err := s.freshCopy(f)
 	if err != "" {
 		res.out = "setup-error"
-		res.fails = append(res.fails, oracleFail{"harness-setup", err})
+		res.fails = append(res.fails, oracleFail{setupClass(err), err})
 		return res
 	}
 	defer os.RemoveAll(in.dir)
@@ -700,6 +727,13 @@ func runCrash(op string, s scn, k, j int, next string) caseRes {
 		res.out = "bad-op"
 		return res
 	}
+	s.judge(f, in, &res, op, next, point, j > 0)
+	return res
+}
+
+// judge reads the target's files back, runs the next plain build of the same / the reverted tree and applies the
+// direct oracle: recovered == clean, and the first recovery attempt succeeds.
+func (s scn) judge(f *famInfo, in inst, res *caseRes, op, next, point string, inner bool) {
 	state, cs, ss := s.showState(f, in)
 	tree := "T1"
 	if next == "revert" {
@@ -714,10 +748,9 @@ func runCrash(op string, s scn, k, j int, next string) caseRes {
 	res.nontrivial = true
 	res.counts = append(res.counts, "kill-at:"+strings.SplitN(point, ":", 2)[0], "next:"+next, "pre:"+s.pre, "mode:"+s.mode,
 		"recovery:"+strings.Fields(rec)[0])
-	if j > 0 {
+	if inner {
 		res.counts = append(res.counts, "inside:"+strings.SplitN(point, ":", 2)[0])
 	}
-	// ---- direct oracle: recovered == clean, and no failure that a second attempt does not fix (nor one that it does)
 	detail := op + " # state " + state + " # " + rec
 	if strings.Contains(rec, "final=stale") {
 		class := "recovered-differs-from-clean"
@@ -726,11 +759,9 @@ func runCrash(op string, s scn, k, j int, next string) caseRes {
 			if !wrong || next != "revert" || ss[i] != nextStamp {
 				continue
 			}
-			if s.mode == "f" && cs[i] == "c1" {
+			if s.usesFb(i) && cs[i] == "c1" {
 				class = "fallback-record-survives-output-replacement"
-			} else if s.mode == "x" && s.kinds[i] == 'd' && cs[i] == "part" {
-				class = "dir-output-keeps-stamp-while-being-removed"
-			} else if s.mode == "f" && s.kinds[i] == 'd' && cs[i] == "part" {
+			} else if s.kinds[i] == 'd' && cs[i] == "part" {
 				class = "dir-output-keeps-stamp-while-being-removed"
 			}
 		}
@@ -746,7 +777,77 @@ func runCrash(op string, s scn, k, j int, next string) caseRes {
 		}
 		res.fails = append(res.fails, oracleFail{class, detail + " # " + lastLine(rr.out)})
 	}
+}
+
+// a second, plain build of T1 on what the first kill left, killed at hook point k2 (+ j2 inner steps) as well
+func runCrash2(op string, s scn, k1, j1, k2, j2 int, next string) caseRes {
+	res := caseRes{op: op}
+	f := family(s)
+	f.init(s)
+	if f.err != "" {
+		res.out = "setup-error"
+		res.fails = append(res.fails, oracleFail{setupClass(f.err), f.err})
+		return res
+	}
+	tr, err := s.trace(f)
+	if err != "" {
+		res.out = "setup-error"
+		res.fails = append(res.fails, oracleFail{setupClass(err), err})
+		return res
+	}
+	if k1 > len(tr) || (j1 > 0 && k1 >= len(tr)) {
+		res.out = "bad-op"
+		return res
+	}
+	in, err := s.freshCopy(f)
+	if err != "" {
+		res.out = "setup-error"
+		res.fails = append(res.fails, oracleFail{setupClass(err), err})
+		return res
+	}
+	defer os.RemoveAll(in.dir)
+	must(os.WriteFile(filepath.Join(in.repo(), "p/x.txt"), []byte("T1\n"), 0o644))
+	r := runPlz(in, []string{"//p:t"}, s.cache == "n", s.pre == "cur", "//p:t", k1, 0)
+	if k1 < len(tr) && r.rc != 137 {
+		res.out = fmt.Sprintf("kill-missed rc=%d", r.rc)
+		res.fails = append(res.fails, oracleFail{"harness-kill-missed", op + " # " + r.out})
+		return res
+	}
+	if j1 > 0 && !s.emulate(f, in, tr[k1], j1) {
+		res.out = "bad-op"
+		return res
+	}
+	// second attempt: a plain build, killed at its k2-th hook point if it gets that far
+	r2 := runPlz(in, []string{"//p:t"}, s.cache == "n", false, "//p:t", k2, 0)
+	point := "end"
+	if r2.rc == 137 {
+		for _, l := range r2.log {
+			if strings.HasPrefix(l, "KILL ") {
+				point = pointName(strings.TrimPrefix(l, "KILL "))
+			}
+		}
+		if j2 > 0 && !s.emulate(f, in, point, j2) {
+			res.out = "bad-op"
+			return res
+		}
+	} else if j2 > 0 {
+		res.out = "bad-op"
+		return res
+	}
+	res.counts = append(res.counts, "crash2", "crash2-second:"+strings.SplitN(point, ":", 2)[0])
+	s.judge(f, in, &res, op, next, point, j2 > 0)
 	return res
+}
+
+// a plain build of a fresh or fully built repository failed or produced something else than its specification:
+// that is a failure of the binary (every scenario depends on it), not of the harness
+func setupClass(err string) string {
+	switch {
+	case strings.HasPrefix(err, "clean build"), strings.HasPrefix(err, "pre-state build"), strings.HasPrefix(err, "trace build"),
+		strings.HasPrefix(err, "reference build"):
+		return "plain-build-fails-or-differs-from-specification"
+	}
+	return "harness-setup"
 }
 
 func lastLine(s string) string {
@@ -760,13 +861,13 @@ func runTrace(op string, s scn) caseRes {
 	f.init(s)
 	if f.err != "" {
 		res.out = "setup-error"
-		res.fails = append(res.fails, oracleFail{"harness-setup", f.err})
+		res.fails = append(res.fails, oracleFail{setupClass(f.err), f.err})
 		return res
 	}
 	tr, err := s.trace(f)
 	if err != "" {
 		res.out = "setup-error"
-		res.fails = append(res.fails, oracleFail{"harness-setup", err})
+		res.fails = append(res.fails, oracleFail{setupClass(err), err})
 		return res
 	}
 	res.out = strings.Join(tr, ",")
@@ -786,13 +887,13 @@ func runFbTrunc(op, kinds string, n int) caseRes {
 	f.init(s)
 	if f.err != "" {
 		res.out = "setup-error"
-		res.fails = append(res.fails, oracleFail{"harness-setup", f.err})
+		res.fails = append(res.fails, oracleFail{setupClass(f.err), f.err})
 		return res
 	}
 	in, err := s.freshCopy(f)
 	if err != "" {
 		res.out = "setup-error"
-		res.fails = append(res.fails, oracleFail{"harness-setup", err})
+		res.fails = append(res.fails, oracleFail{setupClass(err), err})
 		return res
 	}
 	defer os.RemoveAll(in.dir)
@@ -921,7 +1022,7 @@ func runTkill(op, mode string, shapeN, permille int, next string) caseRes {
 	})
 	if f.err != "" {
 		res.out = "setup-error"
-		res.fails = append(res.fails, oracleFail{"harness-setup", f.err})
+		res.fails = append(res.fails, oracleFail{setupClass(f.err), f.err})
 		return res
 	}
 	in := inst{nextDir("tk")}
@@ -1140,6 +1241,20 @@ func runOp(op string) caseRes {
 		if ok && e1 == nil && e2 == nil && k >= 0 && j >= 0 && (f[8] == "same" || f[8] == "revert") {
 			return runCrash(op, s, k, j, f[8])
 		}
+	case f[0] == "crash2" && len(f) == 11:
+		s, ok := parseScn(f[1], f[2], f[3], f[4], f[5])
+		var v [4]int
+		bad := false
+		for i := range v {
+			n, err := strconv.Atoi(f[6+i])
+			if err != nil || n < 0 {
+				bad = true
+			}
+			v[i] = n
+		}
+		if ok && !bad && (f[10] == "same" || f[10] == "revert") {
+			return runCrash2(op, s, v[0], v[1], v[2], v[3], f[10])
+		}
 	case f[0] == "fbtrunc" && len(f) == 3:
 		if n, err := strconv.Atoi(f[2]); err == nil && n >= 0 {
 			return runFbTrunc(op, f[1], n)
@@ -1206,7 +1321,7 @@ func cutPoints(s scn, tr []string) [][2]int {
 				out = append(out, [2]int{k, 1})
 			}
 		case "stamp-out":
-			if s.mode == "f" {
+			if i, _ := strconv.Atoi(idx); i < len(s.kinds) && s.usesFb(i) {
 				out = append(out, [2]int{k, 1}, [2]int{k, 2})
 			}
 		case "stamp-md":
@@ -1273,6 +1388,8 @@ func main() {
 		add(mode, "n", "-", "f", "cur-rmmd")
 		add(mode, "n", "p", "ff", "old:01")
 		add(mode, "c", "-", "fff", "old:101")
+		add(mode, "n", "-", "s", "old:1")
+		add(mode, "n", "-", "fs", "old:11")
 	}
 	nScn := r.N(5, len(pool))
 	lib.Shuffle(rng, pool)
@@ -1284,7 +1401,7 @@ func main() {
 	// phase 1: the traces (also tells the generator where the cut points are)
 	runAll(r, ops, par)
 	ops = nil
-	perScn := r.N(6, 1000)
+	perScn := r.N(6, 12)
 	for _, s := range chosen {
 		tr, err := s.trace(family(s))
 		if err != "" {
@@ -1305,6 +1422,21 @@ func main() {
 			}
 			ops = append(ops, fmt.Sprintf("crash %s %d %d %s", s.toks(), c[0], c[1], next))
 		}
+	}
+	// two kills in a row
+	for i := 0; i < r.N(6, 150) && len(chosen) > 0; i++ {
+		s := lib.Pick(rng, chosen)
+		tr, err := s.trace(family(s))
+		if err != "" {
+			continue
+		}
+		c1 := lib.Pick(rng, cutPoints(s, tr))
+		c2 := lib.Pick(rng, cutPoints(s, tr)) // the second run's hook points differ; inner steps that do not apply there are rejected by both sides
+		next := "same"
+		if rng.Chance(35) {
+			next = "revert"
+		}
+		ops = append(ops, fmt.Sprintf("crash2 %s %d %d %d %d %s", s.toks(), c1[0], c1[1], c2[0], c2[1], next))
 	}
 	// truncated fallback records
 	lens := []int{0, 1, 50, 99}
